@@ -42,7 +42,16 @@ with concurrent.futures.ThreadPoolExecutor(max_workers=par) as ex:
             detail = (ent[0].split(" site=")[0] if ent else (first[0][:120] if first else ""))
             rows.append((name, c, verdict + " " + detail))
             print(name, c, verdict, detail, flush=True)
-with open(os.path.join(VERIF, "seeded", "RESULTS.md"), "w") as f:
+# a filtered run replaces the rows of the changes it ran and keeps the others
+path = os.path.join(VERIF, "seeded", "RESULTS.md")
+if only and os.path.exists(path):
+    ran = set(r[0] for r in rows)
+    for ln in open(path):
+        parts = [x.strip() for x in ln.strip().strip("|").split("|")]
+        if len(parts) == 3 and parts[0] not in ("change", "---") and parts[0] not in ran:
+            rows.append(tuple(parts))
+rows.sort()
+with open(path, "w") as f:
     f.write("# Seeded changes versus the quick checks (written by checks/sweep_seeded.py)\n\n| change | check | result |\n|---|---|---|\n")
     for r in rows:
         f.write("| %s | %s | %s |\n" % r)
